@@ -190,7 +190,7 @@ def main():
                     problems.append(('bound', entry, r.get('case'), r.get('info')))
             elif st == 'panic':
                 totals['panics'] += 1
-                if job.get('panic_is_violation'):
+                if job.get('panic_is_violation', True):
                     info = r.get('info') or {}
                     violations.append({'entry': entry, 'case': r.get('case'), 'tag': 'panic', 'inputs': info.get('inputs', {}), 'rec': r, 'panic': info})
                 else:
